@@ -258,6 +258,30 @@ func c08Build(cs c08Case, uploadID string, metaLimit int) (rq *s3x.Req, verdict 
 		addH("Transfer-Encoding", "chunked")
 		verdict, wantCode = mustReject, "MissingContentLength"
 	}
+	if cs.Fault == "meta-around" {
+		// What exactly counts towards the metadata limit is not stated. S3's own definition
+		// (names plus values of the x-amz-meta-* headers) is the least any definition counts, and
+		// every header the server stores (x-amz-*, Content-Type/-Disposition/-Encoding, plus the
+		// Last-Modified entry it adds itself: 13 + 29 bytes) the most.
+		user, all := 0, 13+29
+		for _, kv := range rq.Header {
+			name := httpCanon(kv[0])
+			if strings.HasPrefix(name, "X-Amz-Meta-") {
+				user += len(name) + len(kv[1])
+			}
+			if strings.HasPrefix(name, "X-Amz-") || name == "Content-Type" || name == "Content-Disposition" || name == "Content-Encoding" {
+				all += len(name) + len(kv[1])
+			}
+		}
+		switch {
+		case user > metaLimit:
+			verdict, wantCode = mustReject, "MetadataTooLarge"
+		case all <= metaLimit:
+			verdict = mustAccept
+		default:
+			verdict = either
+		}
+	}
 	if cs.Kind == "part" {
 		switch cs.Fault {
 		case "key-1023", "key-1024", "key-too-long", "meta-small", "meta-around", "meta-too-large", "meta-many-too-large":
@@ -534,6 +558,15 @@ func c08Run(t *testing.T, c *evid.Collector) {
 				{"chunked", "decoded-len-smaller"}, {"chunked", "decoded-len-larger"}, {"part", "md5-wrong"}, {"part", "short-body"}} {
 				all = append(all, c08Case{Backend: k, Prior: "present", Kind: kf[0], Fault: kf[1], Body: bodySpec{N: n, Seed: 11}, K: n - 7})
 			}
+		}
+	}
+	// the metadata limit, byte by byte across the band in which the verdict changes
+	for _, k := range kinds {
+		if k != backends.Mem && k != backends.MultiMem && !evid.Thorough() {
+			continue
+		}
+		for kk := 60; kk <= 140; kk++ {
+			all = append(all, c08Case{Backend: k, Prior: "present", Kind: "put", Fault: "meta-around", Body: bodies[0], K: kk})
 		}
 	}
 	for i, cs := range all {
